@@ -18,7 +18,9 @@ P = {
          "edge dominance, classification of the membership operation, dataflow pairing header<->setting, pruned CFG reachability", "§4 C11"), "C12": ("other", "Table agreement and order: the four sources are folded in the order defaults, environment, config file, command line (call order by dominance in set-up, bootstrap and main); the flag table has one distinct (short, long, variable) entry per setting; each default is paired with its own constant and guarded by 'variable unset'; every spelling documented in rws.command_line, rws.config.toml and rws.variables reaches a table entry and vice versa; the '_'->'-' mapping touches the key only; the setter writes on every accepting path; getters read their own variables.",
          "constant/table extraction from MIR aggregates, call-order dominance, dataflow pairing, comparison with documentation files", "§4 C12"), "C14": ("other", "Four structural clauses: the Ok return of the request-line parser is dominated by the two split_once tests and the method / version membership tests (lists exhaustive against the ADTs, tokeniser is split_once on one space); all three header-line readers split at the first occurrence of the separator constant that the three serialisers write (name, ': ', value, CRLF per header); header lookup folds case on both sides; a non-UTF-8 head line returns Err. Round-trip equality of values is not decided.",
          "edge dominance of the Ok return, exhaustiveness against ADT definitions, sibling agreement", "§4 C14"), "C15": ("other", "Structural clauses: the Ok return of the status-line parser is dominated by version-known, code-numeric, status-found and reason-equal tests; in both serialisers every framing header is pushed onto the Response value whose header vector the loop serialises (one genuine violation is a known finding); the server's serialiser suppresses the body by method tests only, so the siblings agree; multipart delimiters and the boundary parameter share one constant; the registered-status list covers the status struct exactly; no lossy UTF-8 decoding is reachable from the readers.",
-         "edge dominance, same-origin of push receiver vs iterated vector, sibling agreement, ADT exhaustiveness, who-may-call", "§4 C15"), "C17": None, "C18": None, "C19": None,
+         "edge dominance, same-origin of push receiver vs iterated vector, sibling agreement, ADT exhaustiveness, who-may-call", "§4 C15"), "C17": ("other", "Table-agreement clause on the dependency's source plus a who-may-transform rule: the encoder's and decoder's ordered replace chains (extracted from the MIR of url-search-params) are exact inverses with correct hex codes, '%' is escaped first and '%25' must be resolved last (violated in the dependency: known finding), the builder's separators are split by the parser and escaped, the three entry points reach these functions, and the rws wrappers / FormUrlEncoded::parse / echo controllers do not rewrite the text around the decode. Round-trip equality for concrete maps is not decided.",
+         "ordered constant-table extraction from MIR, table agreement and order rules, call-graph wiring, who-may-transform", "§4 C17"), "C18": ("proof", "The per-group transformation is proved for all inputs at once: a bit-provenance abstract interpretation (exact for >>, <<, &, | on 8-bit vectors) shows that each of the 9 values handed to the alphabet lookup by encode_sequence is exactly the RFC 4648 sextet of the input bits, with 2/1/0 padding characters, and that each of the 6 bytes returned by decode_sequence is the RFC recombination of the looked-up 6-bit values; the alphabet builder is constant-evaluated to the 64-character RFC alphabet and both lookups use it. The 3-byte / 4-character chunking loops of encode / decode are assumed, not decided.",
+         "bit-provenance abstract interpretation over MIR + constant evaluation of the alphabet", "§4 C18"), "C19": None,
  "C04": ("other", "Sufficient modulo the reviewed tables: every potential panic site (unwrap/expect, documented-panicking std call, overflow/bounds/division assert, explicit panic) reachable from the connection roots is guarded by a dominating check, exempt by table or allowlisted with a reason; no input-driven recursion; exactly one response write on every path; error edges answer with the 400 constructor. Genuine residual defects are listed as known findings.",
          "MIR panic-site inventory + dominance-based guard recognition over the call graph; SCC recursion check; CFG path counting", "§4 C04"),
  "C06": ("other", "Structural: panics of request handling are contained by catch_unwind (cut-edge reachability from the worker loop), the accept loop returns only when the listener is exhausted, the queue lock is not held while a task runs, the worker loop has no exit; stack-exhausting recursion is reported.",
